@@ -862,8 +862,8 @@ pub fn mal_case(fmt: Fmt) -> impl Strategy<Value = MalCase> {
     (
         proptest::collection::vec((simple_name(), small_tensor_case()), n_tensors),
         enc(),
-        proptest::collection::vec(fm, 0..=3),
-        proptest::collection::vec(bmut(), 0..=3),
+        proptest::collection::vec(fm, 1..=3),
+        proptest::collection::vec(bmut(), 1..=3),
         0u8..16,
     )
         .prop_map(move |(mut tensors, enc, mut fmuts, mut bmuts, mode)| {
